@@ -70,6 +70,34 @@ CLAIMED = {
             "Trusts TLC and the JDK SHA-256 behind the Native override (self-tested on every run); witness_message's scriptcode argument "
             "is taken to be the CompactSize-prefixed scriptCode, as in the repository's own example tests.",
             "DESIGN.md 5/C11"),
+    "C04": ("TLA+ spec Tx.tla (over CompactSize.tla, Script.tla): TLC runs the transaction parser as a state machine over a bounded "
+            "grammar x trailing strings with the identifier clauses as invariants (MC_Tx); TLC-generated transactions with their "
+            "identifiers replayed into tx_deser (Gen_Tx); recorded tx_deser / block_deser results validated by TLC (Trace_Tx)",
+            "Exhaustive model check that the parser consumes exactly TxSer(t) for every transaction of the bounded grammar (1..2 "
+            "inputs, witness on/off with empty and non-empty stacks, sequences ffffffff/fffffffe/0) followed by none/00/a byte of "
+            "the tx/a copy/a prefix, that txid = H(no-witness form with own sequences), wtxid = H(full form), equal for "
+            "non-witness, independent of trailing data; self-test configs with the two code deviations (default sequence, "
+            "raw-by-search) must yield TLC counterexamples. Every enumerated transaction (real SHA-256) and 230/12000 "
+            "grammar-generated real-size transactions x trailing variants, alone and inside block_deser, are judged by TLC "
+            "recomputing ids from its own parse.",
+            "Trusts TLC and the JDK SHA-256 behind the Native override (self-tested); stage A uses a toy/sampling hash so "
+            "identifier clauses there are structural; Tx.tla is anchored to the genesis coinbase txid and the BIP143 examples.",
+            "DESIGN.md 5/C04"),
+    "C05": ("TLA+ specs CompactSize.tla + Tx.tla: TLC exhaustive at radix 4/5/8 and on 0..2^16+2 / every 2^k boundary at radix 256 "
+            "(MC_CompactSize); parser as a TLC state machine, one action per grammar element (MC_Tx); TLC-generated values and "
+            "transactions replayed into compact_size_uint/parse_compact_size_uint/tx/tx_deser (Gen_CompactSize, Gen_Tx); "
+            "recorded calls validated by TLC (Trace_Tx)",
+            "Exhaustive model check of CompactSize (round trip with any trailing digits, shortest form, refusal exactly above 8 "
+            "digits) over the FULL value domain at radix 4 (and 5 in thorough) plus real-radix boundaries, and of "
+            "Deser(Ser(t) o u) = (t, u), Ser(Deser(b).t) = b, truncation refused, over the bounded transaction grammar and a "
+            "real-size config (252/253/65536-byte scripts and witness items); vacuity guards by deviation/reachability configs. "
+            "65 819+ TLC-enumerated integers and all enumerated transactions replayed; 170/9000 grammar transactions (counts to "
+            "300, lengths across 252/253/255/256/65535/65536, mixed empty witnesses), BIP143 examples, genesis coinbase and "
+            "out-of-range integers judged by TLC on fields, leftover and re-serialisation.",
+            "Trusts TLC; parametricity in the radix for the scaled CompactSize models; Tx.tla anchored to published BIP143 "
+            "transactions and the genesis coinbase (spec self-test each run). Non-canonical CompactSize on input is outside the "
+            "property and not judged.",
+            "DESIGN.md 5/C05"),
     "C06": ("TLA+ spec Bech32.tla (polymod, checksum create/verify, 8<->5 regrouping on the bit string, SegwitEncode, the BIP173/BIP350 decoder "
             "verbatim, total Classify): TLC exhaustive at the REAL code parameters (MC_Bech32), the emitted table replayed into bits.segwit_addr / "
             "to_bitcoin_address / decode_segwit_addr+assert_valid_segwit / is_segwit_addr, implementation traces validated by TLC (Trace_Bech32)",
@@ -117,6 +145,18 @@ CLAIMED = {
             "that small curves exercise the same statements (module constants rebound by the harness; lift_x's literal 7 equals the curves' b). "
             "Stage A proper uses toy hashes; full-size inputs are sampled (quick) / per-bit for three triples (thorough), not exhaustive.",
             "DESIGN.md 5/C12"),
+    "C13": ("TLA+ spec Script.tla (opcode table of Bitcoin Core script.h, push selection, witness stacks, templates): TLC exhaustive "
+            "over programs, byte strings, witness stacks and every template argument range (MC_Script); TLC-generated cases "
+            "replayed into script/decode_script/builders (Gen_Script); recorded calls validated by TLC (Trace_Script)",
+            "Exhaustive model check of Disasm(Asm(p)) = p, Asm(Disasm(b)) = b for every minimally-encoded byte string of <= 5 (6) "
+            "symbols, header = shortest of the four push forms with exact LE length for lengths around 75/76, 255/256, "
+            "65535/65536 and every length 1..600 (3000), witness stacks with CompactSize count/lengths, and every template for all "
+            "1<=m<=n<=16, both key sizes, signatures 8..73, redeem scripts 1..600, null data 0..80 against intended items and "
+            "published byte patterns; three deviation configs must yield counterexamples. All enumerated cases replayed; every "
+            "opcode name, data lengths 1..70000, witness stacks of 0..20 items and all builders over random arguments judged by TLC.",
+            "Trusts TLC and the Native SHA-256/RIPEMD-160 for nested P2SH templates; opcode aliases compared by byte; "
+            "p2sh_p2wsh/p2wpkh_script_sig judged as 'push the given redeem script'; empty null-data accepts 6a or 6a00.",
+            "DESIGN.md 5/C13"),
     "C14": ("TLA+ specs Ecdsa.tla (Sec1Enc/Sec1Dec), Wif.tla (over Base58.tla), Pem.tla (DER layouts of RFC 5915 / SubjectPublicKeyInfo, "
             "canonical Base64, RFC 7468 armour): TLC exhaustive on small curves (MC_Keys), the same model with real SHA-256 emits the table "
             "replayed into the retargeted library; secp256k1 calls validated by TLC (Trace_Keys) with OpenSSL as external PEM reader/producer",
@@ -135,6 +175,25 @@ CLAIMED = {
             "the code path. WIF strings with valid checksum and known version but short payload / out-of-range key are not constrained (the "
             "property does not speak about them); PEM decoding is only judged on well-formed documents; full-size inputs are sampled.",
             "DESIGN.md 5/C14"),
+    "C15": ("TLA+ specs Merkle.tla (level machine + textbook recursion, hash as a parameter), Coinbase.tla (BIP34 push, 100-byte rule, "
+            "subsidy schedule, BIP141 commitment layout), Block.tla (header, block Ser/Deser machine over Tx.tla): TLC exhaustive bounded "
+            "models (MC_Merkle, MC_Coinbase, MC_Block), TLC-generated tree shapes / height tables replayed into the code (Gen_Merkle, "
+            "Gen_Coinbase), implementation traces incl. mine_block under a scripted RPC validated by TLC with real SHA-256 (Trace_Merkle, "
+            "Trace_Coinbase, Trace_Block)",
+            "Exhaustive model check: level machine = textbook tree for every N in 1..64 (256 thorough) with a free-term hash and odd "
+            "levels above the leaves covered; BIP34 push decodes back and is minimal for every height 0..70000 and all encoding "
+            "boundaries up to 2^31-1; subsidy monotone / halving exactly at multiples of 150 and 210000 / zero from 64 halvings (scaled "
+            "base); coinbase layout and claim rule; block round trip for all sequences of 1..3 bounded transactions - each model with a "
+            "self-test deviation TLC must refute. Every tree shape N = 1..300 evaluated with real HASH256 against merkle_root; push and "
+            "subsidy tables on both schedules replayed into coinbase_txin/coinbase_tx; recorded calls (txid lists up to 2048, heights "
+            "incl. every halving boundary, scripts around 100 bytes, rewards =,<,> subsidy, with/without commitment, blocks of 1..50 "
+            "generated legacy/segwit transactions, mine_block blocks) judged by TLC; genesis block and published height/subsidy facts "
+            "are the spec self-test.",
+            "Trusts TLC, the JDK SHA-256 / BigInteger behind the Native overrides (self-tested on every run), Tx.tla's parser for the "
+            "per-transaction step, and the scaling argument for the subsidy (stage A uses 50e8/64, traces use the real amount); "
+            "coinbase_tx's witness_merkle_root_hash is taken as the 32 bytes placed after aa21a9ed (mine_block's value is checked to be "
+            "HASH256(witness root || reserved)).",
+            "DESIGN.md 5/C15"),
     "C16": ("TLA+ specs Send.tla (build machine, conservation clauses), Spend.tla (template-level consensus validity of an input), "
             "Sighash.tla (legacy SignatureHash and BIP143 digest) over Tx/Script/Ecdsa: TLC exhaustive on small instances (MC_Send); "
             "bounded build cases and generated configurations run through the real send_tx with a scripted UTXO source and the "
@@ -153,6 +212,25 @@ CLAIMED = {
             "SIGHASH_ALL, BIP143 by the BIP's preimage vectors (C11). Known finding F21b (legacy multi-input / NONE / SINGLE-with-change "
             "signing) is reported as KNOWN-FINDING.",
             "DESIGN.md 5/C16, Appendix B"),
+    "C17": ("TLA+ specs Frame.tla (recv_msg as a two-phase accumulate machine over an adversarially chunked byte stream with faults and EOF) "
+            "and P2PCodec.tla (Build/Parse of version, getheaders, inv, addr, ping): TLC model-checks safety and liveness (MC_Frame, "
+            "MC_P2PCodec); TLC's dumped state graph, simulated schedules and generated payload rows are replayed into bits.p2p over a "
+            "scripted socket; real msg_ser traffic and real build->parse round trips are recorded and validated by TLC with real "
+            "double-SHA256 (Trace_Frame, Trace_P2PCodec)",
+            "Exhaustive model check of every fragmentation of scripts of <=2 (quick) / <=3 (thorough) messages with one fault each "
+            "(magic, declared length, checksum, payload byte, command flip, truncation at every offset): no bleed, exactness, corruption "
+            "detected, completeness, and termination of every call as a liveness property under weak fairness; a self-test config with the "
+            "SpinOnEOF deviation must yield TLC's liveness counterexample. Every edge of the dumped model graph (26,388 paths) is replayed "
+            "into the real recv_msg comparing each (requested, returned) pair and each outcome; 1,200 (quick) / 15,646 (thorough) executions "
+            "on real msg_ser output (all 17 commands, payloads 0..70000, every single-bit flip of a short message, truncation at every "
+            "offset, wrong magic) are accepted by TLC as behaviours of Frame.tla. Codecs: Parse(Build(v)) = Ok(v) and tightness checked by "
+            "TLC over boundary sets (counts 0,1,2,252,253,254 [thorough: 65535, 65536], 64-bit nonces, all inventory types, relay on/off, "
+            "user agents of 0..300 bytes); 1,458 TLC-built payloads parsed by the real parsers; 201 / 3,465 real round trips judged by TLC.",
+            "Trusts TLC, the JDK SHA-256 behind the Native override, and the scripted socket as a model of a stream socket (recv returns "
+            "1..n bytes in order, b'' only after close; timeouts out of scope). Non-termination is observed as 64 further recv calls after "
+            "EOF. Declared lengths >= 2^31 are treated as 'more than the stream holds'. Stage A/B use a toy checksum (structure), stage C "
+            "real bytes. The wire layout is the protocol's; the verdict clause for codecs is the round trip.",
+            "DESIGN.md 5/C17"),
     "C18": ("TLA+ spec NodeQueue.tla: TLC explores all interleavings of the receive-thread actions (MC_NodeQueue); TLC-simulated "
             "behaviours replayed into the real recv_loop threads under a controlled scheduler; every interleaving of the real "
             "threads (stateless DFS) recorded as a trace and validated by TLC (Trace_NodeQueue)",
@@ -164,6 +242,22 @@ CLAIMED = {
             "Trusts TLC, CPython's threading semantics (parked threads do not run) and that scheduling points are the "
             "deque/list/socket operations, which the harness intercepts with injected container subclasses; messages arrive whole.",
             "DESIGN.md 5/C18"),
+    "C19": ("TLA+ spec BlockStore.tla (numbered files of tagged bytes, open handle, buffered-but-not-durable bytes, calls, crash): TLC "
+            "model-checks all bounded histories over a scaled file limit (MC_BlockStore); TLC-simulated histories are replayed into the "
+            "real bits.p2p.write_blocks_to_disk in scratch directories with MAX_BLOCKFILE_SIZE rebound; seeded random histories with a "
+            "crash injected at every open/write/close boundary (forked child, os._exit) are validated by TLC (Trace_BlockStore)",
+            "Exhaustive model check (MAX=24, overhead 8, block sizes making records fit exactly / by one byte / not at all; 2 calls x <=2 "
+            "blocks from 6 initial directories incl. 11 and 12 files in quick, plus 2x3 and 3x2 in thorough: 153k / 5.6M states) of record "
+            "stream, whole records, bounded, consecutive numbering, append-only, new-file-only-when-needed and crash => durable prefix with "
+            "earlier blocks intact; self-test configs with the pinned 'raise' and the 'drop' deviation must yield TLC's lost-block "
+            "counterexample. 200 / 2,828 TLC-generated histories replayed call by call with the projected directory equal to TLC's state; "
+            "351 / 2,097 random histories (restarts in new processes, pre-populated directories, 10 KiB blocks under a 40 KiB limit) with "
+            "1,579 / 8,879 crash observations, each accepted by TLC as CrashOutcome(k) of a state the call passes through.",
+            "Trusts TLC and the crash model: a crash is process death (what the kernel has is durable, what Python buffers is lost); power "
+            "loss/fsync semantics are out of scope; crash points are the boundaries of builtins.open / write / flush / close under datadir. "
+            "The 128 MiB limit is the same code path as the rebound one. Directories beyond 99,999 files are out of scope. Equal blocks are "
+            "interchangeable in the projection.",
+            "DESIGN.md 5/C19"),
     "C20": ("TLA+ spec Cli.tla: main() as ParseArgs/InitConfig/LoadFile/ApplyExplicit actions with the precedence policy as invariant, "
             "TLC exhaustive over the full finite configuration product (MC_Cli) and over short strings for ReadBytes/WriteBytes "
             "(MC_CliConv); every TLC-enumerated configuration replayed through the real bits.__main__.main() in-process (Gen_Cli); "
